@@ -3,6 +3,7 @@ import enum
 import json
 import logging
 from pathlib import Path, PosixPath, WindowsPath
+import re
 from typing import Any, AnyStr, Callable, IO, List, Optional, Union, cast
 from typing_extensions import Protocol, Type
 
@@ -161,6 +162,24 @@ class Dumper(yaml.SafeDumper):
             self.stream.write(self.best_line_break)
             self.stream.write(' ' * self._cur_indent)
 
+
+# PyYAML quotes strings that look like YAML 1.1 floats, but strings such as
+# 1e5 or 1.5e3 are floats only in YAML 1.2, which is what YAtiML's loader
+# reads. Have those quoted too, so that they come back as strings.
+Dumper.add_implicit_resolver(
+        'tag:yaml.org,2002:float',
+        re.compile(
+            r'^(?:'
+            r'[-+]?'
+            r'(?:'
+            r'  (?:[0-9]+[eE][-+]?[0-9]+'
+            r'  |[0-9]+\.([eE][-+]?[0-9]+)?'
+            r'  |[0-9]*\.[0-9]+([eE][-+]?[0-9]+)?'
+            r'  )'
+            r'|\.(?:inf|Inf|INF)'
+            r'|\.(?:nan|NaN|NAN)'
+            r'))$', re.X),
+        list('-+0123456789.'))
 
 Dumper.add_representer(OrderedDict, Dumper.represent_ordereddict)
 Dumper.add_representer(PosixPath, PathRepresenter())
